@@ -60,6 +60,17 @@ func (m ClientState) Validate() error {
 	if m.TrustingPeriod > math.MaxInt64 {
 		return sdkerrors.Wrapf(sdkerrors.ErrInvalidRequest, "trusting period %d is too large", m.TrustingPeriod)
 	}
+	if m.Header.Time > math.MaxInt64 {
+		return sdkerrors.Wrapf(sdkerrors.ErrInvalidRequest, "header time %d is too large", m.Header.Time)
+	}
+	// the anchor's consensus state is stored at the anchor's height, and the module's genesis validation
+	// rejects a consensus state at height zero; the epoch length divides every block number
+	if m.Header.Height.RevisionHeight == 0 {
+		return sdkerrors.Wrap(sdkerrors.ErrInvalidRequest, "a BSC client cannot be anchored at block 0")
+	}
+	if m.Epoch == 0 {
+		return sdkerrors.Wrap(sdkerrors.ErrInvalidRequest, "epoch cannot be zero")
+	}
 	return m.Header.ValidateBasic()
 }
 
